@@ -32,9 +32,9 @@ func DecodeAddress(b []byte) (Type, error) {
 			return nil, errors.New("Invalid length for IPv6")
 		}
 	default:
-		return Address(b), nil
+		return Address(append([]byte(nil), b...)), nil
 	}
-	return Address(b[2:]), nil
+	return Address(append([]byte(nil), b[2:]...)), nil
 }
 
 // Serialize implements the Type interface.
